@@ -16,7 +16,8 @@ PROP = "C12"
 LEVEL = "fault_enumeration"
 RULE = (
     "A case is a history of 2-8 operations (generate with varying --file-mode/--no-overwrite/--omit-serialization-"
-    "support/--generate-support/post-processor flags, chmod/plant/truncate/remove of files in the output directory) "
+    "support/--generate-support/post-processor flags, chmod/plant/truncate/remove of files in the output directory, entries "
+    "replaced by symbolic or hard links to files elsewhere on the disk) "
     "over one seeded DSDL namespace set, each generate optionally hit by one fault (I/O error or crash at a "
     "mutating call, failed or torn write, failing external program) placed inside the span in which the reference "
     "run produces files. Distinct = digest of (op kinds, option deltas, fault kinds and positions); non-trivial = "
